@@ -62,6 +62,54 @@ INVARIANTS: list[tuple[str, str, str, str]] = [
 ]
 
 
+def _literal_keys(idx: Index, mi, cls, e: ast.AST) -> set[str] | None:
+    """keys of a dict / members of a tuple, list, set or str that `e` names (class attribute, module constant or literal)"""
+    v = e
+    if isinstance(e, ast.Attribute) and isinstance(e.value, ast.Name) and e.value.id in ("self", "cls", getattr(cls, "name", "")) and cls is not None:
+        v = cls.class_assigns().get(e.attr)
+    elif isinstance(e, ast.Name):
+        v = mi.assigns.get(e.id)
+    if isinstance(v, ast.Dict) and all(isinstance(k, ast.Constant) and isinstance(k.value, str) for k in v.keys):
+        return {k.value for k in v.keys}  # type: ignore[union-attr]
+    if isinstance(v, (ast.Tuple, ast.List, ast.Set)) and all(isinstance(k, ast.Constant) and isinstance(k.value, str) for k in v.elts):
+        return {k.value for k in v.elts}  # type: ignore[union-attr]
+    if isinstance(v, ast.Constant) and isinstance(v.value, str):
+        return set(v.value)
+    return None
+
+
+def _prefixed_dispatch_assert(idx: Index, mi, f, x: ast.Assert):
+    """True: the assertion `c in TABLE` / `TABLE.get(c) is not None` cannot fail for the characters lex() dispatches to
+    _lex_prefixed_ident; a string: the character for which it fails; None: not this shape."""
+    t = x.test
+    table = None
+    if isinstance(t, ast.Compare) and len(t.ops) == 1 and isinstance(t.ops[0], ast.In):
+        table = t.comparators[0]
+    elif isinstance(t, ast.Compare) and len(t.ops) == 1 and isinstance(t.ops[0], ast.IsNot) and isinstance(t.comparators[0], ast.Constant) and t.comparators[0].value is None and isinstance(t.left, ast.Name):
+        defs = [a for a in walk_local(f.node) if isinstance(a, ast.Assign) and len(a.targets) == 1 and unparse(a.targets[0]) == t.left.id]
+        if len(defs) == 1 and isinstance(defs[0].value, ast.Call) and call_attr(defs[0].value) == "get":
+            table = defs[0].value.func.value  # type: ignore[union-attr]
+    if table is None:
+        return None
+    keys = _literal_keys(idx, mi, f.cls, table)
+    if keys is None:
+        return None
+    # the characters lex() sends here
+    sent: set[str] | None = None
+    for g in mi.functions.values():
+        if g.qualname != "MLIRLexer.lex":
+            continue
+        for n in walk_local(g.raw_node):
+            if isinstance(n, ast.If) and any(call_attr(c) == "_lex_prefixed_ident" for c in calls_in(n)) and n.body and isinstance(n.body[0], ast.Return):
+                tt = n.test
+                if isinstance(tt, ast.Compare) and len(tt.ops) == 1 and isinstance(tt.ops[0], ast.In):
+                    sent = _literal_keys(idx, mi, g.cls, tt.comparators[0])
+    if sent is None:
+        return None
+    missing = sorted(sent - keys)
+    return True if not missing else repr(missing[0])
+
+
 def check_redos(idx: Index, rep: Report, tier: str) -> None:
     r = rep.rule("C07.R1", "no regex used by the lexers/parsers has a starred group with an ambiguous inner repeat followed by a failable continuation (catastrophic backtracking)", floor=20)
     # self-check of the detector on the textbook positive / negative
@@ -226,6 +274,16 @@ def check_sites(idx: Index, rep: Report) -> None:
                     pm = parent_map(f.node)
                 txt = unparse(x)
                 inst = f"{f.fq}:{kind}:{txt[:50]}"
+                # the dispatch assertion of _lex_prefixed_ident in table form: `assert c in TABLE` / `assert TABLE.get(c) is not None`
+                # holds iff the table has a key for every character lex() sends here (decided, not just matched)
+                if kind == "assert" and f.qualname == "MLIRLexer._lex_prefixed_ident":
+                    verdict = _prefixed_dispatch_assert(idx, mi, f, x)
+                    if verdict is True:
+                        r.ok(inst, f"{m}:{x.lineno} the table tested by the assertion has a key for every character lex() dispatches here")
+                        continue
+                    if isinstance(verdict, str):
+                        r.fail(inst, Finding("C07.R3", f.fq, "prefix-table-incomplete", f"`{txt[:80]}`: lex() sends {verdict} to _lex_prefixed_ident but the table has no entry for it: AssertionError on that character", f"{m}:{x.lineno}"))
+                        continue
                 # reviewed invariant?
                 inv = next((i for i, (q, k, pat, why) in enumerate(INVARIANTS) if q == f.qualname and (k == kind or (k == "raise" and kind == "raise")) and re.search(pat, txt)), None)
                 if inv is not None:
